@@ -44,6 +44,7 @@ var hostileLexemes = []string{
 	"a", "_", "a1", "A_9", "foo", "length", "sort_by", "abs",
 	"a\u007f", "a\u0080", "a\u0081", "a\u00ff", "a\u07ff", "a\u0800", "a\uffff", "a\U00010000", "a\U0010ffff",
 	"a\x80", "a\xc0", "a\xff", "a\xe2\x82", "a\xf0\x9f", "\x80", "\xff", "\xc3", "é", "😀",
+	"\"\xff\xff\"", "\"\xe2\x82\"", "\"\x80\xbf\xc0\"", "\"a\xffb\"", "'\xff\xff'", "`\"\xff\"`",
 	"0", "1", "-1", "-", "--1", "-0", "00", "9223372036854775807", "-9223372036854775808", "9223372036854775808", "-9223372036854775809",
 	"18446744073709551616", "1000000000000000000000000000000", "1.5", "1e3",
 	"'", "'a", "'a'", "'\\'", "'\\''", "'a\\'b'", "''", "'\x80'",
